@@ -1,3 +1,110 @@
 package main
 
-func runSelftest(args []string) int { return 0 }
+// hvc selftest [PROP...]: the must-fail corpus. Every confirmed seeded change under /verif/seeded/<id>/ is applied to a
+// scratch copy of /repo (outside /repo and /verif, removed immediately) and the check of its property is run against
+// that copy: it must report at least one VIOLATION. Guards against vacuity holes in the engine or the contracts.
+
+import (
+	"encoding/json"
+	"fmt"
+	"os"
+	"os/exec"
+	"path/filepath"
+	"sort"
+	"strings"
+)
+
+type seedMeta struct {
+	ID        string `json:"id"`
+	Property  string `json:"property"`
+	Confirmed bool   `json:"confirmed"`
+}
+
+type selftestResult struct {
+	Seed       string `json:"seed"`
+	Property   string `json:"property"`
+	Caught     bool   `json:"caught"`
+	Violations int    `json:"violations"`
+	First      string `json:"first_obligation"`
+	Note       string `json:"note,omitempty"`
+}
+
+func runSeeds(props map[string]bool) ([]selftestResult, bool) {
+	dirs, _ := filepath.Glob(filepath.Join(verifRoot, "seeded", "*", "meta.json"))
+	sort.Strings(dirs)
+	self, _ := os.Executable()
+	var out []selftestResult
+	allCaught := true
+	for _, mf := range dirs {
+		var m seedMeta
+		data, err := os.ReadFile(mf)
+		if err != nil || json.Unmarshal(data, &m) != nil || !m.Confirmed {
+			continue
+		}
+		if len(props) > 0 && !props[m.Property] {
+			continue
+		}
+		r := selftestResult{Seed: m.ID, Property: m.Property}
+		scr, err := os.MkdirTemp("", "hvc-selftest-")
+		if err != nil {
+			r.Note = err.Error()
+			out = append(out, r)
+			allCaught = false
+			continue
+		}
+		outDir, _ := os.MkdirTemp("", "hvc-selftest-out-")
+		func() {
+			defer os.RemoveAll(scr)
+			defer os.RemoveAll(outDir)
+			if b, err := exec.Command("rsync", "-a", "--exclude", ".git", "--exclude", "doc", repoRoot+"/", scr+"/").CombinedOutput(); err != nil {
+				r.Note = "copy failed: " + string(b)
+				return
+			}
+			p := exec.Command("patch", "-s", "-p1", "--no-backup-if-mismatch", "-i", filepath.Join(filepath.Dir(mf), "patch.diff"))
+			p.Dir = scr
+			if b, err := p.CombinedOutput(); err != nil {
+				r.Note = "patch does not apply to the current tree: " + clip(string(b), 200)
+				return
+			}
+			c := exec.Command(self, "check", m.Property, "--tier", "quick")
+			c.Env = append(os.Environ(), "HVC_REPO="+scr, "HVC_OUT="+outDir, "HVC_NO_SELFTEST=1")
+			b, _ := c.CombinedOutput()
+			for _, l := range strings.Split(string(b), "\n") {
+				if strings.HasPrefix(l, "VIOLATION") {
+					r.Violations++
+					if r.First == "" {
+						if i := strings.Index(l, "obligation="); i >= 0 {
+							r.First = strings.Fields(l[i+len("obligation="):])[0]
+						}
+					}
+				}
+			}
+			r.Caught = r.Violations > 0
+		}()
+		if !r.Caught {
+			allCaught = false
+		}
+		out = append(out, r)
+	}
+	return out, allCaught
+}
+
+func runSelftest(args []string) int {
+	props := map[string]bool{}
+	for _, a := range args {
+		props[a] = true
+	}
+	res, ok := runSeeds(props)
+	for _, r := range res {
+		mark := "caught"
+		if !r.Caught {
+			mark = "MISSED"
+		}
+		fmt.Printf("%-8s %-6s %s violations=%d %s %s\n", r.Seed, r.Property, mark, r.Violations, r.First, r.Note)
+	}
+	fmt.Printf("%d seeded changes, all caught: %v\n", len(res), ok)
+	if !ok {
+		return 1
+	}
+	return 0
+}
